@@ -12,6 +12,7 @@ L : outside the exact universe (Gauss rules, derivatives, H(div)/H(curl)/global 
     Functional(F(interpolate u, interpolate v)) are recorded as fixed-point numbers; law Consistent, tolerance TolSum.
 """
 import json
+import os
 
 import numpy as np
 
@@ -637,6 +638,35 @@ def execute(rec):
     raise MachineryError(f'unknown driver {rec["driver"]}')
 
 
+SUITE_FILES = ['tests/test_assembly.py', 'tests/test_basis.py', 'tests/test_manufactured.py', 'tests/test_elements.py']
+
+
+def suite_scenarios(ctx):
+    """thorough tier: every small weak form the repository's own tests assemble, recorded by harness/suite_c01.py while
+    the tests run, judged by the Suite clauses of TraceC01 (ConsistentLaw, ShapeOK, RowsAreTest)"""
+    from .. import suite
+    files = SUITE_FILES + (['tests/test_examples.py'] if os.environ.get('C01_SUITE_EXAMPLES', '1') == '1' else [])
+    got = suite.record(ctx, files=files, plugins=['harness.suite_c01'], timeout=2400)
+    evs = got.get('c01', [])
+    stats = {}
+    for st in got.get('c01_stats', []):
+        for k, v in st.items():
+            stats[k] = stats.get(k, 0) + v
+    scs = []
+    for k, e in enumerate(evs):
+        e = dict(e)
+        rec = {'driver': 'suite', 'test': e.pop('test', ''), 'form': e.pop('form', ''), 'elems': e.pop('elems', ''),
+               'via': e.pop('via', '')}
+        scs.append({'id': f'C01-suite-{k}', 'recipe': rec,
+                    'tags': {'family': 'suite', 'tier': 'suite', 'kind': e['kind'], 'form': rec['form'], 'eu': rec['elems'][:80]},
+                    'events': [e]})
+    ctx.notes['suite_stream'] = {'files': files, 'events_recorded': len(evs), 'distinct_forms': len({s['recipe']['form'] for s in scs}),
+                                 'distinct_tests': len({s['recipe']['test'].split(' ')[0] for s in scs}),
+                                 'by_kind': {k: sum(1 for s in scs if s['tags']['kind'] == k) for k in ('bil', 'lin', 'fun')},
+                                 'with_sparsity_pattern': sum(s['events'][0]['haspat'] for s in scs), 'recorder': stats}
+    return scs
+
+
 def scenario(sid, rec, tags):
     try:
         events = execute(rec)
@@ -708,6 +738,8 @@ def run(ctx):
     try:
         recs = generate(ctx)
         scs = [scenario(sid, rec, tags) for sid, rec, tags in recs]
+        if ctx.tier == 'thorough':
+            scs += suite_scenarios(ctx)
     finally:
         th.join()
     if 'exc' in box:
@@ -737,6 +769,10 @@ def replay(ctx, doc):
     sc = doc['scenario']
     if sc.get('recipe', {}).get('driver') == 'model':
         ctx.model_must_hold('MC_C01', 'MC_C01.cfg', env={'MC_TIER': ctx.tier, 'MC_MUT': 'none'}, timeout=1800, workers=8, xmx='6g')
+        return ctx.finish(rule=RULE)
+    if sc.get('recipe', {}).get('driver') == 'suite':
+        # recorded from a repository test (named in the recipe): the recorded event itself is re-validated
+        ctx.validate('TraceC01', [sc], jvms=8)
         return ctx.finish(rule=RULE)
     sc2 = scenario(sc['id'], sc['recipe'], sc.get('tags', {}))
     ctx.validate('TraceC01', [sc2], jvms=8)
